@@ -108,6 +108,8 @@ def qs_worker(prop, seed, widx, nworkers, plan, scratch, allow_restart=False, ru
         v = res["violation"]
         if v is not None:
             owner = CLASS2PROP.get(v["class"], prop)
+            if prop == "C19" and v["class"] == "R-ttl":
+                owner = "C19"  # a premature drop makes a finished render read as 'progress' again
             if owner != prop:
                 Stats.merge(st["foreign"], {v["class"]: 1})
             else:
